@@ -17,7 +17,7 @@ THEOREMS = ['MindsVerif.Props.C18.' + n for n in (
     'pin_single_line', 'phi18_plan_rows', 'phi18_step_rows',
     # equality
     'C18_ast_eq', 'C18_single_line_refines', 'C18_step_eq_refl', 'C18_step_eq_symm_partial', 'C18_witness_4',
-    'C18_list_eq', 'C18_plan_eq_list', 'C18_plan_eq_fixed', 'C18_witness_8', 'C18_result_eq', 'C18_col_eq', 'C18_witness_5',
+    'C18_list_eq', 'C18_plan_eq_list', 'C18_plan_eq_fixed', 'C18_witness_8', 'C18_result_eq', 'C18_result_hash_contract', 'C18_witness_9', 'C18_col_eq', 'C18_witness_5',
     # regression theorems about the former code (repaired; the findings are fixed)
     'C18_copy_partial', 'C18_old_hook_witness_1', 'C18_old_hook_witness_1a', 'C18_old_hook_witness_1b',
     'C18_old_plan_eq_witness_2', 'C18_old_hash_witness_3', 'C18_old_single_line_witness_7')]
@@ -353,8 +353,7 @@ def probe_near_miss(t, rng, meta, limit=None):
                 continue
             n += 1
             fails += check_near_miss(t, b, meta, site, kind, new)
-            if kind in ('toggle', 'char'):
-                fails += check_variant_copy(t, b, meta, site, kind, new)
+            fails += check_variant_copy(t, b, meta, site, kind, new)
             set_site(b, site, site[2])
     return fails, n
 
@@ -605,6 +604,75 @@ def probe_dataclass_eq(cls):
     return fails
 
 
+STEP_NUMS = [0, 1, 2, 10, '0', '1', '2', '10', '2_0', '1_0', '01', ' 1', '1 ', '', 1.0, True, False, None]
+
+
+def sn_token(v):
+    """driver token of a step number the model covers (int / str), else None"""
+    if isinstance(v, bool):
+        return None
+    if isinstance(v, int):
+        return 'i%d' % v
+    if isinstance(v, str) and v and all(ch.isalnum() or ch == '_' for ch in v):
+        return 's' + v
+    return None
+
+
+def probe_eq_hash(cls, make, values, value_equality=False):
+    """eq / hash contract and reference reading for a hashable class with __eq__ whose instances are made from one
+    value: a == b ⇒ hash(a) == hash(b); == symmetric; and, for classes whose equality is equality of that value
+    (Result: the step number), make(x) == make(y) iff x == y"""
+    fails = []
+    objs = []
+    for v in values:
+        try:
+            objs.append((v, make(v)))
+        except Exception:
+            pass
+    for x, a in objs:
+        for y, b in objs:
+            ab, ba = call_eq(a, b), call_eq(b, a)
+            base = dict(probe='eqhash', cls=cls, x=repr(x), y=repr(y))
+            if ab != ba:
+                fails.append(dict(base, desc='%s(%r) == %s(%r) is %s but the converse is %s' % (cls, x, cls, y, ab, ba),
+                                  **{'class': 'eqhash-asymmetric/%s' % cls}))
+            if ab == 'true':
+                try:
+                    ha, hb = hash(a), hash(b)
+                except Exception as e:
+                    fails.append(dict(base, desc='hash(%s(%r)) raises %s' % (cls, x, type(e).__name__),
+                                      **{'class': 'eqhash-raises/%s/%s' % (cls, type(e).__name__)}))
+                    continue
+                if ha != hb:
+                    fails.append(dict(base, desc='%s(%r) == %s(%r) but their hashes differ (%d vs %d): equal objects are different dict / set keys' % (
+                        cls, x, cls, y, ha, hb), **{'class': 'eqhash-contract/%s/%s-%s' % (cls, type(x).__name__, type(y).__name__)}))
+            want = 'true' if (x == y) is True else 'false'
+            if value_equality and ab != want:
+                fails.append(dict(base, desc='%s(%r) == %s(%r) is %s although the values are %s' % (
+                    cls, x, cls, y, ab, 'equal' if want == 'true' else 'different'),
+                    **{'class': 'eq-not-value-equality/%s/%s-%s' % (cls, type(x).__name__, type(y).__name__)}))
+    return fails, len(objs) ** 2
+
+
+def hashable_eq_classes():
+    """every class of the package (introspection) that defines __eq__ and has a usable __hash__, with a one-value maker"""
+    import importlib, inspect, pkgutil
+    import mindsdb_sql
+    out, seen = [], set()
+    for mi in pkgutil.walk_packages(mindsdb_sql.__path__, 'mindsdb_sql.'):
+        try:
+            mod = importlib.import_module(mi.name)
+        except Exception:
+            continue
+        for _, c in inspect.getmembers(mod, inspect.isclass):
+            if c in seen or not getattr(c, '__module__', '').startswith('mindsdb_sql'):
+                continue
+            seen.add(c)
+            if any('__eq__' in vars(k) for k in c.__mro__[:-1]) and getattr(c, '__hash__', None) is not None:
+                out.append(c)
+    return out
+
+
 def kf_match(k, f):
     sig = k.get('signature', {})
     if sig.get('class') != f.get('class'):
@@ -634,6 +702,23 @@ def reproduce_kf(k, rng):
 
 # --------------------------------------------------------------------------- streams
 
+NAME_TEMPLATES = ["select {q} from t", "select t.{q} from t", "select {q}.c from t", "select a.{q}.c from t", "select x as {q} from t",
+                  "select * from {q}", "select * from db.{q}", "select * from t as {q}", "select * from {q}.t as u", "select f({q}) from t",
+                  "select * from t where t.{q} = 1", "select * from t order by t.{q}", "select * from a join {q} on a.x = {q}.x",
+                  "insert into {q} (a) values (1)", "update {q} set {q} = 1", "delete from db.{q} where {q} = 1"]
+NAME_TEXTS = [' b', 'b ', ' b c ', 'B', 'b  c', 'select', 'a.b', '1b', "b'c", ' ']
+
+
+def name_shape_sql(dialect):
+    """statements with a quoted name in every name position (first / middle / last part, alias, table, function
+    argument …), in every quoting style, with edge blanks / case / inner blanks / keywords / dots in the name:
+    values a constructor could normalise when a copy is rebuilt through it"""
+    for tmpl in NAME_TEMPLATES:
+        for txt in NAME_TEXTS:
+            for q in ('`%s`' % txt, '"%s"' % txt):
+                yield tmpl.format(q=q)
+
+
 def tree_stream(chk, quick, deep, wide=False):
     """(meta, tree) for parser-produced trees: corpus x dialects, hand cases, grammar-derived sentences"""
     from mindsdb_sql import parse_sql
@@ -655,6 +740,17 @@ def tree_stream(chk, quick, deep, wide=False):
                 continue
             seen.add(key)
             yield dict(src='corpus', dialect=d, sql=s), t
+    for d in DIALECTS:
+        for s in name_shape_sql(d):
+            try:
+                t = parse_sql(s, d)
+                key = (type(t).__name__, t.to_tree(), str(t))
+            except Exception:
+                continue
+            if key in seen:
+                continue
+            seen.add(key)
+            yield dict(src='names', dialect=d, sql=s), t
     n_mut, n_sent = (3000, 6000) if deep else ((600, 1000) if wide else (150, 250))
     for d in DIALECTS:
         rng = common.rng_for(chk.seed, 'C18/sent/' + d)
@@ -963,13 +1059,29 @@ def run(chk):
                                        desc='%s steps of the plans of two queries: a == b is %s but b == a is %s (attributes %s vs %s)' % (tn, ab, ba, ka, kb),
                                        **{'class': 'step-eq-asymmetric/%s/%s-%s' % (tn, ab, ba)})])
     dist['step_classes'] = {k: len(v) for k, v in by_type.items()}
-    # ---- Result hash / eq, TableColumn eq
-    for n in list(range(0, 6)) + [prng.randrange(1000) for _ in range(10)]:
-        add_failures(probe_result(n))
+    # ---- eq / hash contract for every hashable class with __eq__ (found by introspection), Result streams
+    from mindsdb_sql.planner.step_result import Result
+    for c in hashable_eq_classes():
+        try:
+            c(1)
+        except Exception:
+            dist.setdefault('eqhash/unconstructible', []).append(c.__name__)
+            continue
+        fs, n = probe_eq_hash(c.__name__, c, STEP_NUMS + [prng.randrange(1000) for _ in range(3)], value_equality=c is Result)
+        chk.evaluations += n
+        add_failures(fs)
+        bump('eqhash/' + c.__name__)
+    toks = [(v, sn_token(v)) for v in STEP_NUMS + [prng.randrange(1000) for _ in range(6)] + ['%d_%d' % (prng.randrange(9), prng.randrange(4)) for _ in range(4)]]
+    toks = [(v, t) for v, t in toks if t]
+    for x, tx in toks:
+        for y, ty in toks:
+            lines.append('reseq %s %s' % (tx, ty))
+            expect.append(('reseq', dict(x=repr(x), y=repr(y)), call_eq(Result(x), Result(y))))
+    for n, tn_ in [(v, t) for v, t in toks]:
+        add_failures(probe_result(n) if isinstance(n, int) else [])
         chk.count(('result', n))
-        # the `hash` stream ties the variant the tree has: repaired = resultHashFixed with the tuple hash of
-        # ('Result', n) as oracle value (so the real method must be exactly that hash); former = resultHash (TypeError)
-        from mindsdb_sql.planner.step_result import Result
+        # the `hash` stream ties the variant the tree has: live = hash of the key ('Result', step_num) (oracle value:
+        # the tuple hash), former = resultHash (TypeError)
         try:
             got = 'ok %d' % hash(Result(n))
         except TypeError:
@@ -977,9 +1089,11 @@ def run(chk):
         except Exception as e:
             got = type(e).__name__
         if sd['hash_ok']:
-            lines.append('hash fixed %d %d' % (n, hash(('Result', n))))
-        else:
+            lines.append('hash fixed %s %d' % (tn_, hash(('Result', n))))
+        elif isinstance(n, int):
             lines.append('hash pinned %d' % n)
+        else:
+            continue
         expect.append(('hash', dict(n=n), got))
     # ---- to_single_line: model (variant probed by the extractor) vs the real function
     sl_texts = [str(t) for m_, t in trees[:150]]
@@ -1055,6 +1169,9 @@ def replay(path):
         site = (f['site'][0], f['site'][1], f['old'])
         set_site(b, site, f['new'])
         fs = check_variant_copy(a, b, dict(dialect=f['dialect'], sql=f['sql']), site, f['variant'], f['new'])
+    elif f.get('probe') == 'eqhash':
+        fs = [g for c in hashable_eq_classes() if c.__name__ == f['cls']
+              for g in probe_eq_hash(c.__name__, c, STEP_NUMS, value_equality=c.__name__ == 'Result')[0] if g['class'] == f['class'] and g['x'] == f['x'] and g['y'] == f['y']]
     elif f.get('probe') == 'planpair':
         from mindsdb_sql.planner import plan_query
         p = plan_query(parse_sql(f['sql'], 'mindsdb'), **catalog_of(f.get('cat')))
